@@ -23,14 +23,37 @@
                                 `cc-violation`, `misaligned-call`, `ret-to-non-sentinel`, `read-undefined …`.
   * `C13_cc_never_fires_data`   hence `CCSafe`: THE CALLING-CONVENTION MONITOR NEVER FIRES on these runs;
                                 with the heap monitor off the result satisfies the full `C13_allowed`.
-  WHAT REMAINS of `C13_statement` for programs with heap statements: runs that do NOT terminate (the
-  simulation is a terminating-run theorem; the integer theorem needs no termination because its invariant
-  needs no typing), programs with closures (`create` / `invoke`), the side hypotheses of
-  `C06_data_programs`, and the parser round trip (`TextLoads`).
+  * `C13_data_all_fuel`         RUNS THAT DO NOT TERMINATE INCLUDED (no hypothesis on the run of the
+                                positional machine except that it never gets stuck, i.e. no division by zero /
+                                overflow): for EVERY machine fuel `fuel'` with `fuel'·(M + 1) + |main| + 1 <
+                                2^64` (`M = progMaxSize p`) the result is `outOfFuel` or `done v` (or, heap
+                                monitor on, a report of the heap monitor).  Heap: the footprint bound of C10
+                                (`PeakAtMost Pk` and `64·(Pk + A + 2) ≤ heapBytes`, trivial for the bound
+                                `A·fuel + 1`).  From PROGRESS (Scc/X86/ConcProgress.lean): every `call` takes a
+                                machine transition, every other step moves to a smaller statement, so a
+                                positional run that is still going after `fuel'·(M + 1) + |main|` steps has
+                                driven the machine through at least `fuel'` transitions without fault.
+  * `C13_cc_never_fires_data_all`  hence `CCSafe` for these runs, and `C13_allowed` with the heap monitor off.
+  * `C13_cc_never_fires_data_size`  the same with the heap hypothesis stated on the SOURCE PROGRAM (no hypothesis
+                                about the machine's run): `valsFields st.env ≤ D` for every reachable state of
+                                the positional machine and `64·(D + A + 2) ≤ heapBytes` (Props/C10X86.lean).
+                                Example: the box loop, for every fuel below 2^60.
+  * `C13_cc_never_fires_data_loaded`  the same ON THE TEXT: `run (printProg routine)`, the machine's own entry
+                                point on the printed routine, without a loader hypothesis (`C14_routine_loads`:
+                                the decidable names check `C14_namesTextSafe`).
+  WHAT REMAINS of `C13_statement` for programs with heap statements: machine fuel beyond `2^64 / (M + 1)`
+  (the abstract machine of Theorem A numbers its objects with 64-bit words: after 2^64 steps its fresh-id
+  argument ends), runs of the positional machine that get stuck on a division (the machine faults with
+  `div-by-zero` / `div-overflow`, which `C13_allowed` permits, but the simulation says nothing about stuck
+  steps), programs with closures (`create` / `invoke`), the side hypotheses of `C06_data_programs`, and the
+  parser round trip (`TextLoads`).
 -/
 import Scc.Props.C13X86
 import Scc.Props.C06X86Heap
 import Scc.X86.ConcCC
+import Scc.X86.ConcAllFuel
+import Scc.X86.ConcDataRun
+import Scc.Props.C14Loader
 
 namespace Scc.X86
 open Scc.AxCut Scc.AxCut.Pos Scc.Backend Scc.Backend.Abs Scc.X86.Ref Scc.X86.Conc
@@ -117,6 +140,165 @@ theorem C13_cc_never_fires_data (p : AxCut.Prog) (args : List Word) (hooks : Boo
   · rw [h]; exact ⟨trivial, fun _ => trivial⟩
   · rw [h]; exact ⟨trivial, fun h0 => by rw [hh] at h0; cases h0⟩
 
+/-! ## every amount of machine fuel: runs that do not terminate -/
+
+/-- C13 FOR ALL RUNS OF PROGRAMS WITH DATA TYPES, non-terminating ones included: whatever the machine fuel
+(below `2^64 / (M + 1)`), the machine on the items of the routine ends in `outOfFuel` or in `done v` (or in
+a report of the heap monitor when that is on) — never in `cc-violation`, `misaligned-call`,
+`ret-to-non-sentinel`, `read-undefined …`, nor in any other fault. -/
+theorem C13_data_all_fuel (p : AxCut.Prog) (args : List Word) (hooks : Bool) (body routine : List Code)
+    (nargs : Nat) (d0 : Def) (ops : List MockOp) (c' : Nat)
+    (hsafe : LabelSafe p = true) (htp : LinTypedProg p) (hdata : DataProg p) (hrange : ProgInRange p)
+    (hcompM : (compile mockSym hooks p).run 0 = .ok ((ops, nargs), c')) (hfit : CodeFits ops)
+    (hcompX : compileX86 p hooks 0 = .ok (body, nargs)) (hrout : intoRoutine body nargs = .ok routine)
+    (hnd : (labs routine).Nodup)
+    (hd : p.defs.head? = some d0) (hentry : ∀ b ∈ d0.ctx, b.chi = .ext ∧ b.ty = .i64)
+    (hlen : d0.ctx.length = args.length)
+    (hcap : ∀ st, Reachable p ⟨d0.ctx, args.map .int, d0.body⟩ st → 2 * st.ctx.length ≤ 266)
+    (hnostuck : ∀ fuel w, (Pos.run p args fuel).res ≠ .stuck w)
+    (cfg : MonCfg) (MO : MachOK cfg.mach) (hk : cfg.consts = consts)
+    (hb8 : cfg.mach.heapBase % 8 = 0) (hb0 : 0 < cfg.mach.heapBase)
+    (Pk : Nat) (hbytes : 64 * (Pk + progMaxLet p + 2) ≤ cfg.mach.heapBytes)
+    (items : List (Code × Nat)) (hitems : (items.map (·.1)).map stripC = routine.map stripC)
+    (hfitX : addrAt cfg.mach.codeBase routine routine.length < 2 ^ 64)
+    (fuel' : Nat) (hf : fuel' * (progMaxSize p + 1) + stmtSize d0.body + 1 < 2 ^ 64)
+    (hP : PeakAtMost p hooks routine ops cfg items args Pk
+      (progMaxLet p * (fuel' * (progMaxSize p + 1) + stmtSize d0.body) + 1)) :
+    (runItems items args fuel' cfg).res = .outOfFuel ∨ (∃ v, (runItems items args fuel' cfg).res = .done v) ∨
+      ∃ what ln, cfg.heap = true ∧ (runItems items args fuel' cfg).res = .invFail what ln := by
+  have hoff := data_programs_all_fuel p args hooks body routine nargs d0 ops c' hsafe htp
+    ⟨hrange.1, fun d hd => ⟨hdata d hd, hrange.2 d hd⟩⟩ hcompM hfit hcompX hrout hnd hd hentry hlen hcap hnostuck
+    (monOff cfg) MO hk rfl hb8 hb0 Pk (progMaxLet p) (progMaxSize p) (letLe_progMaxLet p)
+    (stmtSize_le_progMaxSize p) hbytes items hitems hfitX fuel' hf (peakAtMost_monOff hP)
+  have hoff' : (runItems items args fuel' (monOff cfg)).res = .outOfFuel ∨
+      ∃ v, (runItems items args fuel' (monOff cfg)).res = .done v := by
+    rcases hoff with h | ⟨v, _, _, h⟩
+    · exact Or.inl h
+    · exact Or.inr ⟨v, h⟩
+  cases hh : cfg.heap with
+  | false =>
+    have e : monOff cfg = cfg := by
+      cases cfg; simp only [monOff] at *; rw [hh]
+    rw [e] at hoff'
+    rcases hoff' with h | h
+    · exact Or.inl h
+    · exact Or.inr (Or.inl h)
+  | true =>
+    rcases runItems_monitor_indep items args fuel' cfg with h | ⟨e, ln, h⟩
+    · rw [h]
+      rcases hoff' with h' | h'
+      · exact Or.inl h'
+      · exact Or.inr (Or.inl h')
+    · exact Or.inr (Or.inr ⟨e, ln, rfl, h⟩)
+
+/-- C13 (b) FOR PROGRAMS WITH DATA TYPES, ALL RUNS: the calling-convention monitor never fires, whatever the
+machine fuel (below `2^64 / (M + 1)`) and the monitor configuration; with the heap monitor off the result is an
+outcome `C13_allowed` permits -/
+theorem C13_cc_never_fires_data_all (p : AxCut.Prog) (args : List Word) (hooks : Bool) (body routine : List Code)
+    (nargs : Nat) (d0 : Def) (ops : List MockOp) (c' : Nat)
+    (hsafe : LabelSafe p = true) (htp : LinTypedProg p) (hdata : DataProg p) (hrange : ProgInRange p)
+    (hcompM : (compile mockSym hooks p).run 0 = .ok ((ops, nargs), c')) (hfit : CodeFits ops)
+    (hcompX : compileX86 p hooks 0 = .ok (body, nargs)) (hrout : intoRoutine body nargs = .ok routine)
+    (hnd : (labs routine).Nodup)
+    (hd : p.defs.head? = some d0) (hentry : ∀ b ∈ d0.ctx, b.chi = .ext ∧ b.ty = .i64)
+    (hlen : d0.ctx.length = args.length)
+    (hcap : ∀ st, Reachable p ⟨d0.ctx, args.map .int, d0.body⟩ st → 2 * st.ctx.length ≤ 266)
+    (hnostuck : ∀ fuel w, (Pos.run p args fuel).res ≠ .stuck w)
+    (cfg : MonCfg) (MO : MachOK cfg.mach) (hk : cfg.consts = consts)
+    (hb8 : cfg.mach.heapBase % 8 = 0) (hb0 : 0 < cfg.mach.heapBase)
+    (Pk : Nat) (hbytes : 64 * (Pk + progMaxLet p + 2) ≤ cfg.mach.heapBytes)
+    (items : List (Code × Nat)) (hitems : (items.map (·.1)).map stripC = routine.map stripC)
+    (hfitX : addrAt cfg.mach.codeBase routine routine.length < 2 ^ 64)
+    (fuel' : Nat) (hf : fuel' * (progMaxSize p + 1) + stmtSize d0.body + 1 < 2 ^ 64)
+    (hP : PeakAtMost p hooks routine ops cfg items args Pk
+      (progMaxLet p * (fuel' * (progMaxSize p + 1) + stmtSize d0.body) + 1)) :
+    CCSafe (runItems items args fuel' cfg).res ∧
+      (cfg.heap = false → C13_allowed (runItems items args fuel' cfg).res) := by
+  have h := C13_data_all_fuel p args hooks body routine nargs d0 ops c' hsafe htp hdata hrange hcompM hfit
+    hcompX hrout hnd hd hentry hlen hcap hnostuck cfg MO hk hb8 hb0 Pk hbytes items hitems hfitX fuel' hf hP
+  rcases h with h | ⟨v, h⟩ | ⟨e, ln, hh, h⟩
+  · rw [h]; exact ⟨trivial, fun _ => trivial⟩
+  · rw [h]; exact ⟨trivial, fun _ => trivial⟩
+  · rw [h]; exact ⟨trivial, fun h0 => by rw [hh] at h0; cases h0⟩
+
+/-- C13 (b) FOR PROGRAMS WITH DATA TYPES ON THE TEXT OF THE ROUTINE, all runs: the machine's entry point `run`
+on the printed routine — parsed by the machine's own parser (`C14_routine_loads`) — never reports a violation
+of the calling convention, whatever the fuel (below `2^64 / (M + 1)`) and the monitor configuration; with the
+heap monitor off the result is an outcome `C13_allowed` permits. -/
+theorem C13_cc_never_fires_data_loaded (p : AxCut.Prog) (args : List Word) (hooks : Bool) (body routine : List Code)
+    (nargs : Nat) (d0 : Def) (ops : List MockOp) (c' : Nat)
+    (hsafe : LabelSafe p = true) (htp : LinTypedProg p) (hdata : DataProg p) (hrange : ProgInRange p)
+    (hnames : C14_namesTextSafe p = true)
+    (hcompM : (compile mockSym hooks p).run 0 = .ok ((ops, nargs), c')) (hfit : CodeFits ops)
+    (hcompX : compileX86 p hooks 0 = .ok (body, nargs)) (hrout : intoRoutine body nargs = .ok routine)
+    (hnd : (labs routine).Nodup)
+    (hd : p.defs.head? = some d0) (hentry : ∀ b ∈ d0.ctx, b.chi = .ext ∧ b.ty = .i64)
+    (hlen : d0.ctx.length = args.length)
+    (hcap : ∀ st, Reachable p ⟨d0.ctx, args.map .int, d0.body⟩ st → 2 * st.ctx.length ≤ 266)
+    (hnostuck : ∀ fuel w, (Pos.run p args fuel).res ≠ .stuck w)
+    (cfg : MonCfg) (MO : MachOK cfg.mach) (hk : cfg.consts = consts)
+    (hb8 : cfg.mach.heapBase % 8 = 0) (hb0 : 0 < cfg.mach.heapBase)
+    (Pk : Nat) (hbytes : 64 * (Pk + progMaxLet p + 2) ≤ cfg.mach.heapBytes)
+    (hfitX : addrAt cfg.mach.codeBase routine routine.length < 2 ^ 64)
+    (fuel' : Nat) (hf : fuel' * (progMaxSize p + 1) + stmtSize d0.body + 1 < 2 ^ 64)
+    (hP : ∀ items, parseText (printProg routine) = .ok items → PeakAtMost p hooks routine ops cfg items args Pk
+      (progMaxLet p * (fuel' * (progMaxSize p + 1) + stmtSize d0.body) + 1)) :
+    CCSafe (run (printProg routine) args fuel' cfg).res ∧
+      (cfg.heap = false → C13_allowed (run (printProg routine) args fuel' cfg).res) := by
+  obtain ⟨items, hparse, hitems⟩ := C14_routine_loads hrange hnames hcompX hrout
+  rw [run_eq_runItems hparse]
+  exact C13_cc_never_fires_data_all p args hooks body routine nargs d0 ops c' hsafe htp hdata hrange hcompM hfit
+    hcompX hrout hnd hd hentry hlen hcap hnostuck cfg MO hk hb8 hb0 Pk hbytes items hitems hfitX fuel' hf
+    (hP items hparse)
+
+/-- C13 (b) FOR PROGRAMS WITH DATA TYPES, ALL RUNS, heap hypothesis on the source program: if the object values
+held by the variables of the positional machine never have more than `D` fields, then in a heap of
+`64·(D + A + 2)` bytes the machine never reports a violation of the calling convention, whatever the fuel (below
+`2^64 / (M + 1)`) and the monitor configuration. -/
+theorem C13_cc_never_fires_data_size (p : AxCut.Prog) (args : List Word) (hooks : Bool) (body routine : List Code)
+    (nargs : Nat) (d0 : Def) (ops : List MockOp) (c' : Nat)
+    (hsafe : LabelSafe p = true) (htp : LinTypedProg p) (hdata : DataProg p) (hrange : ProgInRange p)
+    (hcompM : (compile mockSym hooks p).run 0 = .ok ((ops, nargs), c')) (hfit : CodeFits ops)
+    (hcompX : compileX86 p hooks 0 = .ok (body, nargs)) (hrout : intoRoutine body nargs = .ok routine)
+    (hnd : (labs routine).Nodup)
+    (hd : p.defs.head? = some d0) (hentry : ∀ b ∈ d0.ctx, b.chi = .ext ∧ b.ty = .i64)
+    (hlen : d0.ctx.length = args.length)
+    (hcap : ∀ st, Reachable p ⟨d0.ctx, args.map .int, d0.body⟩ st → 2 * st.ctx.length ≤ 266)
+    (hnostuck : ∀ fuel w, (Pos.run p args fuel).res ≠ .stuck w)
+    (D : Nat) (hD : ∀ st, Reachable p ⟨d0.ctx, args.map .int, d0.body⟩ st → valsFields st.env ≤ D)
+    (cfg : MonCfg) (MO : MachOK cfg.mach)
+    (hb8 : cfg.mach.heapBase % 8 = 0) (hb0 : 0 < cfg.mach.heapBase)
+    (hbytes : 64 * (D + progMaxLet p + 2) ≤ cfg.mach.heapBytes)
+    (items : List (Code × Nat)) (hitems : (items.map (·.1)).map stripC = routine.map stripC)
+    (hfitX : addrAt cfg.mach.codeBase routine routine.length < 2 ^ 64)
+    (fuel' : Nat) (hf : fuel' * (progMaxSize p + 1) + stmtSize d0.body + 1 < 2 ^ 64) :
+    CCSafe (runItems items args fuel' cfg).res ∧
+      (cfg.heap = false → C13_allowed (runItems items args fuel' cfg).res) := by
+  have hoff := (data_programs_dsize_all p args hooks body routine nargs d0 ops c' hsafe htp
+    ⟨hrange.1, fun d hd => ⟨hdata d hd, hrange.2 d hd⟩⟩ hcompM hfit hcompX hrout hnd hd hentry hlen hcap hnostuck
+    D hD (monOff cfg) MO rfl hb8 hb0 (progMaxLet p) (progMaxSize p) (letLe_progMaxLet p)
+    (stmtSize_le_progMaxSize p) hbytes items hitems hfitX fuel' hf).1
+  have hoff' : (runItems items args fuel' (monOff cfg)).res = .outOfFuel ∨
+      ∃ v, (runItems items args fuel' (monOff cfg)).res = .done v := by
+    rcases hoff with h | ⟨v, _, _, h⟩
+    · exact Or.inl h
+    · exact Or.inr ⟨v, h⟩
+  cases hh : cfg.heap with
+  | false =>
+    have e : monOff cfg = cfg := by
+      cases cfg; simp only [monOff] at *; rw [hh]
+    rw [e] at hoff'
+    rcases hoff' with h | ⟨v, h⟩
+    · rw [h]; exact ⟨trivial, fun _ => trivial⟩
+    · rw [h]; exact ⟨trivial, fun _ => trivial⟩
+  | true =>
+    rcases runItems_monitor_indep items args fuel' cfg with h | ⟨e, ln, h⟩
+    · rw [h]
+      rcases hoff' with h' | ⟨v, h'⟩
+      · rw [h']; exact ⟨trivial, fun _ => trivial⟩
+      · rw [h']; exact ⟨trivial, fun _ => trivial⟩
+    · rw [h]; exact ⟨trivial, fun h0 => by cases h0⟩
+
 /-! ### non-vacuity: the box program of C06X86Heap (let, share, switch shared and unique, print) -/
 
 example (fuel' : Nat) : CCSafe (runItems (C06_boxRoutine.map fun c => (c, 0)) [21] fuel' {}).res ∧
@@ -133,7 +315,154 @@ example (fuel' : Nat) : CCSafe (runItems (C06_boxRoutine.map fun c => (c, 0)) [2
     machOK_default (by decide) (by decide) (by decide)
     (C06_boxRoutine.map fun c => (c, 0)) (by simp [List.map_map, Function.comp]) C06_boxRoutine_fits fuel'
 
+/-! ### non-vacuity of the all-fuel theorem: a loop that allocates and frees a box FOREVER -/
+
+/-- main(x) { let b = B(x); switch b { B(y) => main(y) } } -/
+def C13_loopBoxMain : Def :=
+  { name := ⟨"main", 0⟩, ctx := [⟨⟨"x", 1⟩, .ext, .i64⟩],
+    body := .letS ⟨"b", 2⟩ C06_tBox ⟨"B", 0⟩ [⟨⟨"x", 1⟩, .ext, .i64⟩]
+      (.switch ⟨"b", 2⟩ C06_tBox
+        (.cons ⟨"B", 0⟩ [⟨⟨"y", 3⟩, .ext, .i64⟩] (.call ⟨"main", 0⟩ [⟨⟨"y", 3⟩, .ext, .i64⟩]) .nil) none) none }
+
+def C13_loopBoxProg : AxCut.Prog := { defs := [C13_loopBoxMain], types := [C06_boxDecl], maxId := 102 }
+
+def C13_loopBoxOps : List MockOp :=
+  match (compile mockSym true C13_loopBoxProg).run 0 with
+  | .ok ((code, _), _) => code
+  | .error _ => []
+
+def C13_loopBoxBody : List Code :=
+  match compileX86 C13_loopBoxProg true 0 with
+  | .ok (body, _) => body
+  | .error _ => []
+
+def C13_loopBoxRoutine : List Code :=
+  match intoRoutine C13_loopBoxBody 1 with
+  | .ok r => r
+  | .error _ => []
+
+/-- the four states of the loop -/
+def C13_loopS0 : Pos.State := ⟨C13_loopBoxMain.ctx, [.int 21], C13_loopBoxMain.body⟩
+def C13_loopS1 : Pos.State :=
+  ⟨[⟨⟨"b", 2⟩, .prd, C06_tBox⟩], [.obj 0 [.int 21]],
+   .switch ⟨"b", 2⟩ C06_tBox
+     (.cons ⟨"B", 0⟩ [⟨⟨"y", 3⟩, .ext, .i64⟩] (.call ⟨"main", 0⟩ [⟨⟨"y", 3⟩, .ext, .i64⟩]) .nil) none⟩
+def C13_loopS2 : Pos.State :=
+  ⟨[⟨⟨"y", 3⟩, .ext, .i64⟩], [.int 21], .call ⟨"main", 0⟩ [⟨⟨"y", 3⟩, .ext, .i64⟩]⟩
+
+theorem C13_loop_step0 : Pos.step C13_loopBoxProg C13_loopS0 = .next C13_loopS1 none := by rfl
+theorem C13_loop_step1 : Pos.step C13_loopBoxProg C13_loopS1 = .next C13_loopS2 none := by rfl
+theorem C13_loop_step2 : Pos.step C13_loopBoxProg C13_loopS2 = .next C13_loopS0 none := by rfl
+
+theorem C13_loop_reachable (st : Pos.State) (h : Reachable C13_loopBoxProg C13_loopS0 st) :
+    st = C13_loopS0 ∨ st = C13_loopS1 ∨ st = C13_loopS2 := by
+  induction h with
+  | refl => exact Or.inl rfl
+  | step _ hs ih =>
+    rcases ih with rfl | rfl | rfl
+    · rw [C13_loop_step0] at hs; injection hs with e; exact Or.inr (Or.inl e.symm)
+    · rw [C13_loop_step1] at hs; injection hs with e; exact Or.inr (Or.inr e.symm)
+    · rw [C13_loop_step2] at hs; injection hs with e; exact Or.inl e.symm
+
+/-- the loop never ends and never gets stuck -/
+theorem C13_loop_runs : ∀ (fuel : Nat) (acc : List (Bool × Word)),
+    (Pos.runState C13_loopBoxProg fuel C13_loopS0 acc).res = .outOfFuel ∧
+    (Pos.runState C13_loopBoxProg fuel C13_loopS1 acc).res = .outOfFuel ∧
+    (Pos.runState C13_loopBoxProg fuel C13_loopS2 acc).res = .outOfFuel
+  | 0, _ => ⟨rfl, rfl, rfl⟩
+  | fuel + 1, acc => by
+    obtain ⟨h0, h1, h2⟩ := C13_loop_runs fuel acc
+    refine ⟨?_, ?_, ?_⟩
+    · simp only [Pos.runState, C13_loop_step0]; exact h1
+    · simp only [Pos.runState, C13_loop_step1]; exact h2
+    · simp only [Pos.runState, C13_loop_step2]; exact h0
+
+theorem C13_loopBoxProg_inRange : ProgInRange C13_loopBoxProg := by
+  refine ⟨?_, ?_⟩
+  · intro d hd
+    simp only [C13_loopBoxProg, List.mem_singleton] at hd
+    subst hd
+    simp [C06_boxDecl, maxTagsX86]
+  · intro d hd
+    simp only [C13_loopBoxProg, List.mem_singleton] at hd
+    subst hd
+    simp [C13_loopBoxMain, StmtB, ClausesB, maxSubstX86]
+
+theorem C13_loopBoxProg_data : DataProg C13_loopBoxProg := by
+  intro d hd
+  simp only [C13_loopBoxProg, List.mem_singleton] at hd
+  subst hd
+  simp [C13_loopBoxMain, DataStmt, DataClauses]
+
+set_option maxRecDepth 100000 in
+theorem C13_loopBoxRoutine_fits :
+    addrAt ({} : MachCfg).codeBase C13_loopBoxRoutine C13_loopBoxRoutine.length < 2 ^ 64 := by decide
+
+theorem C13_loopBox_consts : progMaxLet C13_loopBoxProg = 1 ∧ progMaxSize C13_loopBoxProg = 4 ∧
+    stmtSize C13_loopBoxMain.body = 4 := by decide
+
+/-- the machine on the routine of the box loop, started with x = 21, in the default configuration: for EVERY
+fuel up to 100000 the calling-convention monitor does not fire and the result is an allowed outcome — the
+program does not terminate (it allocates a block, frees it, and calls itself, forever) -/
+example (fuel' : Nat) (hf : fuel' ≤ 100000) :
+    CCSafe (runItems (C13_loopBoxRoutine.map fun c => (c, 0)) [21] fuel' {}).res ∧
+    (({} : MonCfg).heap = false →
+      C13_allowed (runItems (C13_loopBoxRoutine.map fun c => (c, 0)) [21] fuel' {}).res) := by
+  have hcompM : ∃ k, (compile mockSym true C13_loopBoxProg).run 0 = .ok ((C13_loopBoxOps, 1), k) := ⟨_, rfl⟩
+  obtain ⟨c', hcompM⟩ := hcompM
+  have hcompX : compileX86 C13_loopBoxProg true 0 = .ok (C13_loopBoxBody, 1) := rfl
+  have hrout : intoRoutine C13_loopBoxBody 1 = .ok C13_loopBoxRoutine := rfl
+  obtain ⟨e1, e2, e3⟩ := C13_loopBox_consts
+  exact C13_cc_never_fires_data_all C13_loopBoxProg [21] true C13_loopBoxBody C13_loopBoxRoutine 1
+    C13_loopBoxMain C13_loopBoxOps c'
+    (by decide) (linTypedCheck_sound C13_loopBoxProg rfl) C13_loopBoxProg_data C13_loopBoxProg_inRange hcompM
+    (by decide) hcompX hrout (by decide) rfl (by decide) rfl
+    (fun st hr => by
+      rcases C13_loop_reachable st hr with rfl | rfl | rfl <;> decide)
+    (fun fuel w h => by
+      have hrs : Pos.run C13_loopBoxProg [21] fuel = Pos.runState C13_loopBoxProg fuel C13_loopS0 [] :=
+        run_eq_runState rfl rfl fuel
+      rw [hrs, (C13_loop_runs fuel []).1] at h
+      cases h)
+    {} machOK_default rfl (by decide) (by decide)
+    (progMaxLet C13_loopBoxProg * (fuel' * (progMaxSize C13_loopBoxProg + 1) + stmtSize C13_loopBoxMain.body) + 1)
+    (by rw [e1, e2, e3]; show 64 * (1 * (fuel' * (4 + 1) + 4) + 1 + 1 + 2) ≤ 0x2000000; omega)
+    (C13_loopBoxRoutine.map fun c => (c, 0)) (by simp [List.map_map, Function.comp]) C13_loopBoxRoutine_fits
+    fuel' (by rw [e2, e3]; omega) (peakAtMost_trivial _ _ _ _ _ _ _ _)
+
+/-- … and with the heap hypothesis on the source program (`valsFields ≤ 1`): for EVERY fuel below 2^60 -/
+example (fuel' : Nat) (hf : fuel' < 2 ^ 60) :
+    CCSafe (runItems (C13_loopBoxRoutine.map fun c => (c, 0)) [21] fuel' {}).res ∧
+    (({} : MonCfg).heap = false →
+      C13_allowed (runItems (C13_loopBoxRoutine.map fun c => (c, 0)) [21] fuel' {}).res) := by
+  have hcompM : ∃ k, (compile mockSym true C13_loopBoxProg).run 0 = .ok ((C13_loopBoxOps, 1), k) := ⟨_, rfl⟩
+  obtain ⟨c', hcompM⟩ := hcompM
+  have hcompX : compileX86 C13_loopBoxProg true 0 = .ok (C13_loopBoxBody, 1) := rfl
+  have hrout : intoRoutine C13_loopBoxBody 1 = .ok C13_loopBoxRoutine := rfl
+  obtain ⟨e1, e2, e3⟩ := C13_loopBox_consts
+  exact C13_cc_never_fires_data_size C13_loopBoxProg [21] true C13_loopBoxBody C13_loopBoxRoutine 1
+    C13_loopBoxMain C13_loopBoxOps c'
+    (by decide) (linTypedCheck_sound C13_loopBoxProg rfl) C13_loopBoxProg_data C13_loopBoxProg_inRange hcompM
+    (by decide) hcompX hrout (by decide) rfl (by decide) rfl
+    (fun st hr => by rcases C13_loop_reachable st hr with rfl | rfl | rfl <;> decide)
+    (fun fuel w h => by
+      have hrs : Pos.run C13_loopBoxProg [21] fuel = Pos.runState C13_loopBoxProg fuel C13_loopS0 [] :=
+        run_eq_runState rfl rfl fuel
+      rw [hrs, (C13_loop_runs fuel []).1] at h
+      cases h)
+    1 (fun st hr => by rcases C13_loop_reachable st hr with rfl | rfl | rfl <;> decide)
+    {} machOK_default (by decide) (by decide) (by rw [e1]; decide)
+    (C13_loopBoxRoutine.map fun c => (c, 0)) (by simp [List.map_map, Function.comp]) C13_loopBoxRoutine_fits
+    fuel' (by rw [e2, e3]; omega)
+
+/-- the names of the box loop are text-safe: `C13_cc_never_fires_data_loaded` applies to its printed routine -/
+example : C14_namesTextSafe C13_loopBoxProg = true := by decide
+
 end Scc.X86
 
 #print axioms Scc.X86.C13_data_terminating
 #print axioms Scc.X86.C13_cc_never_fires_data
+#print axioms Scc.X86.C13_data_all_fuel
+#print axioms Scc.X86.C13_cc_never_fires_data_all
+#print axioms Scc.X86.C13_cc_never_fires_data_loaded
+#print axioms Scc.X86.C13_cc_never_fires_data_size
